@@ -9,6 +9,7 @@ import (
 	"math"
 	"math/rand"
 	"sort"
+	"strings"
 
 	"google.golang.org/protobuf/types/known/timestamppb"
 
@@ -444,6 +445,20 @@ func (g *Gen) pickSID(c *model.Conn) string {
 			}
 		default:
 			if !(g.Avoid["refused-join-while-joined"] && c.Sess != nil) {
+				if g.R.Intn(2) == 0 {
+					// a string that is not an id but looks like one of the live ones (its
+					// own session's first): padded, in another case, decorated - an id
+					// names a session only when it is that exact string
+					base := ""
+					if c.Sess != nil {
+						base = c.Sess.SID
+					} else if len(live) > 0 {
+						base = live[g.R.Intn(len(live))]
+					}
+					if base != "" {
+						return []string{base + " ", " " + base, base + "\n", "\t" + base, strings.ToUpper(base), base + "/", base + "\x00", "0" + base, base + "0"}[g.R.Intn(9)]
+					}
+				}
 				return []string{"nope", "labx0", "labxffffffff", "x1", "LABX1"}[g.R.Intn(5)]
 			}
 		}
